@@ -21,7 +21,10 @@ package server
 // the others (needsReload: runner.model.AdapterPaths, runner.llama.Ping), so whenever refMu is free
 // the three must agree. Proved at every release of refMu, assumed at every acquisition.
 // (added after seeded change C15-seed4, in which unload left Options behind)
-//@ lockinv (runnerRef).refMu : (this.Options == nil <==> this.llama == nil) && (this.model == nil <==> this.llama == nil)
+// C11/C15 (coverage extension): ... and the parallelism a runner records is at least 1 - needsReload divides the
+// loaded context by it (a zero would panic in the scheduler's goroutine). load clamps it before the
+// runner is published; nobody writes it afterwards. This replaces the former assume-at in needsReload.
+//@ lockinv (runnerRef).refMu : (this.Options == nil <==> this.llama == nil) && (this.model == nil <==> this.llama == nil) && this.numParallel >= 1
 
 // llm.LlamaServer is external; its methods do not touch scheduler state.
 //@ extern func llm.(LlamaServer).Close
@@ -46,8 +49,8 @@ package server
 //@ extern func time.AfterFunc
 //@   modifies nothing
 //@   ensures result != nil
-//@ extern func (*runnerRef).waitForVRAMRecovery
-//@   modifies nothing
+// (*runnerRef).waitForVRAMRecovery: was a trusted extern (`modifies nothing`); now a verified contract
+// with the same frame, see verif_contracts_sched2.go.
 
 // C01: "The refMu must already be held when calling unload" and nobody holds a reference.
 //@ func (*runnerRef).unload
@@ -141,6 +144,7 @@ package server
 // exactly the request's reference; an error reply carries an error.
 //@   assert-at send successCh : sent == runner && sent.loading == false && sent.refCount == 1 && held(sent.refMu)
 //@   assert-at send errCh : sent != nil
+//@   requires runner.numParallel >= 1         -- lock invariant of refMu (released here): proved at the go statement in load
 
 // C11: the loaded map (whose size is compared with the configured maximum, and which is
 // searched per model path) covers every live runner: an entry is deleted only after the
@@ -279,6 +283,13 @@ package server
 //@   assert-at call loadFn #2 : pending.opts.NumCtx == wrapint(pending.origNumCtx * arg3)
 //@   assert-at call loadFn #3 : pending.opts.NumCtx == wrapint(pending.origNumCtx * arg3)
 //@   assert-at call loadFn #4 : g != nil ==> pending.opts.NumCtx == wrapint(pending.origNumCtx * arg3)
+// (coverage extension) one of the two remaining loadFn calls: the first model with the partial-fit
+// fallback when no parallelism has been settled by then (pickBestPartialFitByLibrary settles on 1 and
+// restores the request's own context, postcondition).
+//@   ghost-at call pickBestPartialFitByLibrary : ghost_np0 := numParallel
+//@   assert-at call loadFn #4 : (g == nil && ghost_np0 <= 0) ==> (arg3 == 1 && pending.opts.NumCtx == pending.origNumCtx)
+// C11 (making room evicts an idle runner when one exists): the victim of the CPU path is the one the helper chose
+//@   assert-at call maybeFindCPURunnerToUnload : arg1 == pending && arg3 == gpus
 
 // C02: exactly one reply on this path too.
 //@ func (*Scheduler).processCompleted$1
@@ -355,6 +366,14 @@ package server
 //@   assert-at return #3 : ghost_n == len(runnerList) && ghost_sorted == 1 && len(runnerList) > 0 && result == runnerList[0]
 //@ func (*Scheduler).unloadAllRunners
 //@   requires !heldany(runnerRef.refMu)     -- lock order (verif_contracts_lockorder.go): called with no runner lock held
+// C01 (shut down only ...) / C02 (every runner that was started is shut down): at shutdown a server is
+// closed only through the loaded map, with loadedMu held (so not concurrently with unload, which needs
+// loadedMu too), and EVERY loaded runner that has a server is closed before loadedMu is released.
+//@   assert-at call Close : recv == runner.llama && runner.llama != nil && held(s.loadedMu)
+//@   ghost-at after call Close : runner.ghost_shut := 1
+//@   loop 1 invariant forall k string :: visited(k) ==> (s.loaded[k] == nil || s.loaded[k].llama == nil || s.loaded[k].ghost_shut == 1)
+//@   loop 1 invariant forall k string :: has(s.loaded, k) ==> rangehad(k)
+//@   assert-at call sync.(*Mutex).Unlock~ : forall k string :: has(s.loaded, k) ==> (s.loaded[k] == nil || s.loaded[k].llama == nil || s.loaded[k].ghost_shut == 1)
 // C11 (placement: a new runner is started only where it fits in the memory the loaded models
 // leave free): the memory left free is computed from EVERY loaded runner. r.ghost_acct records
 // that r's per-GPU prediction was asked for and added; after the loop every loaded runner
@@ -377,7 +396,7 @@ package server
 // is still loading was placed on it.
 //@   assert-at call append #2 : runner.loading && ret[i].ID == busyGPU.ID
 //@ func (*runnerRef).needsReload
-//@   assume-at entry : runner.numParallel >= 1      -- set to max(1, n) in load before the runner is published, never changed
+//@   assert-at after call sync.(*Mutex).Lock : runner.numParallel >= 1      -- (was an assume-at at entry) now proved: conjunct of the lock invariant of refMu, established by load (max(1, n)) before the runner is published and kept at every release
 // C11 (reload when options/adapters/projectors differ or the runner does not answer a ping; reuse
 // when compatible): the runner is reported reusable (false) only when all three comparisons said
 // "equal" AND the ping succeeded - each recorded from the call that made it; a runner that has
@@ -435,6 +454,15 @@ package server
 //@   loop 3 invariant req.origNumCtx == old(req.origNumCtx)
 //@   loop 4 invariant req.origNumCtx == old(req.origNumCtx)
 //@   ensures result != nil ==> req.opts.NumCtx == wrapint(req.origNumCtx * (*numParallel))
+// (coverage extension) the parallelism is written only together with a reported placement: no store to
+// *numParallel has been executed when nil is reported
+//@   ghost-at entry : ghost_w := 0
+//@   ghost-at store numParallel : ghost_w := 1
+//@   loop 1 invariant ghost_w == 0
+//@   loop 2 invariant ghost_w == 0
+//@   loop 3 invariant ghost_w == 0
+//@   loop 4 invariant ghost_w == 0
+//@   assert-at return #3 : ghost_w == 0
 
 // C15 (no request makes the server panic; the list of running models never reports a torn-down
 // runner): under loadedMu every entry of the loaded map is a runner that has not been torn down
